@@ -1,7 +1,8 @@
 #!/bin/bash
 # run every registered check at the given tier (default quick); summary table
 tier=${1:-quick}
-cd /verif
+cd "$(dirname "$0")/.." || exit 2
+mkdir -p .work
 for pid in $(python3 -c "import json; print(' '.join(c['property_id'] for c in json.load(open('MANIFEST.json'))['checks']))"); do
   s=$(date +%s); ./run $pid $tier > .work/all_$pid.log 2>&1; rc=$?; e=$(date +%s)
   echo "$pid rc=$rc $((e-s))s $(grep -c '^VIOLATION' .work/all_$pid.log) violations; $(grep -c '^KNOWN-FINDING' .work/all_$pid.log) known; $(tail -1 .work/all_$pid.log | cut -c1-150)"
